@@ -37,7 +37,7 @@ DECIDING = ['tcpcl.session:ContactHandler.is_sess_idle', 'tcpcl.session:ContactH
             'tcpcl.session:ContactHandler.send_bundle_get_queue', 'tcpcl.session:ContactHandler.recv_bundle_get_queue',
             'tcpcl.agent:Agent.shutdown', 'tcpcl.agent:Agent.connect', 'udpcl.agent:Agent._add_rx_item',
             'udpcl.agent:Agent._recv_ext_map']
-REQUIRED_OBS = ['runs', 'signals_checked', 'returns_checked', 'invariant_evaluations', 'idle_true_checked', 'pops_checked',
+REQUIRED_OBS = ['stack_pops_compared', 'runs', 'signals_checked', 'returns_checked', 'invariant_evaluations', 'idle_true_checked', 'pops_checked',
                 'agent_scenarios', 'udpcl_datagrams', 'refuse_signals', 'agent_transfers_checked', 'tls_param_reports']
 
 
@@ -671,6 +671,8 @@ def cases(tier, seed):
     out.append(dict(id='udp-hostile', kind='udp', which='hostile', seed=seed + 2, mtu=None, sends=[]))
     for oidx, order in enumerate((['w1', 's1', 'w2'], ['s0', 'w1'], ['w1', 'w2', 's1', 's0', 'w3'], ['s1', 's0', 'w1', 'w2'], ['w1', 's0', 's1'], ['t7'], ['w1', 't7', 's1'])):
         out.append(dict(id='udp-ids-%d' % oidx, kind='udp', which='ids', order=order, seed=seed + 10 + oidx, mtu=None, sends=[]))
+    from vf import stackcases  # pylint: disable=import-outside-toplevel
+    stackcases.add_cases(out, tier, seed)
     return out
 
 
@@ -681,6 +683,9 @@ def classify(kind, text, extra=None):
 
 
 def run_case(case):
+    if case.get('kind') == 'stack':
+        from vf import stackcases  # pylint: disable=import-outside-toplevel
+        return stackcases.run_block(PROPERTY_ID, case)
     obs = dict(runs=0, signals_checked=0, returns_checked=0, invariant_evaluations=0, idle_true_checked=0, pops_checked=0,
                agent_scenarios=0, udpcl_datagrams=0, refuse_signals=0, budget_exhausted=0)
     violations = []
